@@ -17,7 +17,7 @@ for it in json.load(open(sys.argv[1])):
         shutil.rmtree(dst)
     shutil.copytree(it['src'], dst)
     json.dump({'id': it['id'], 'property': it['id'].split('-')[0], 'needs_to_manifest': it['needs'],
-               'source': 'independent sub-agent (second round) given only the property text, one-line descriptions of the first round, and a scratch worktree',
+               'source': 'independent sub-agent (later round) given only the property text, one-line descriptions of the first round, and a scratch worktree',
                'confirmed': {'how': 'tools/seedconfirm2.sh in a scratch worktree', 'build_with_patch': 'ok',
                              'pinned_package_tests_with_patch': 'pass', 'demo_with_patch': 'fails', 'demo_without_patch': 'passes'},
                'check_result': None}, open(dst + '/meta.json', 'w'), indent=1)
